@@ -68,6 +68,19 @@ pub trait IoRead {
             && final(buf)@.take(n as int) == old(self).stream().take(n as int) && final(buf)@.skip(n as int) == old(buf)@.skip(n as int)
             && final(self).stream() == old(self).stream().skip(n as int),
         r is Err ==> io_kind(r->Err_0) == old(self).end_kind() && final(self).stream() == old(self).stream();
+    // AsyncReadExt::take(n).read_to_end(&mut v) (rewrite rule R32; not used by the pinned code, present for the same reason as
+    // `read`): appends at most n bytes; running out of input is NOT an error when the stream ends with EOF (fewer bytes are
+    // returned), and is the transport's error otherwise
+    fn take_read_to_end(&mut self, n: u64, buf: &mut Vec<u8>) -> (r: Result<usize, io::Error>)
+      ensures
+        final(self).end_kind() == old(self).end_kind(),
+        old(self).stream().len() >= n ==> r == Ok::<usize, io::Error>(n as usize)
+            && final(buf)@ == old(buf)@ + old(self).stream().take(n as int)
+            && final(self).stream() == old(self).stream().skip(n as int),
+        old(self).stream().len() < n && old(self).end_kind() == io::ErrorKind::UnexpectedEof ==> r == Ok::<usize, io::Error>(old(self).stream().len() as usize)
+            && final(buf)@ == old(buf)@ + old(self).stream()
+            && final(self).stream().len() == 0,
+        old(self).stream().len() < n && old(self).end_kind() != io::ErrorKind::UnexpectedEof ==> r is Err && io_kind(r->Err_0) == old(self).end_kind();
 }
 
 // ---- the writer: stands for std::io::Write::write_all (A3)
@@ -171,6 +184,9 @@ impl<'a> IoRead for &'a [u8] {
     #[verifier::external_body]
     fn read(&mut self, buf: &mut [u8]) -> (r: Result<usize, io::Error>)
     { std::io::Read::read(self, buf) }
+    #[verifier::external_body]
+    fn take_read_to_end(&mut self, n: u64, buf: &mut Vec<u8>) -> (r: Result<usize, io::Error>)
+    { std::io::Read::read_to_end(&mut std::io::Read::take(self, n), buf) }
 }
 
 // ---- big-endian helpers (R5; contracts cross-checked for all inputs by Kani harness k_be_bytes)
